@@ -734,6 +734,158 @@ def rule_repr_only(ctx, only=("Matcher::fuzzy_matcher_impl", "Matcher::fuzzy_mat
 
 # ---------------------------------------------------------------- entry order
 
+def prefilter_completeness(facts):
+    """{prefilter path: (complete?, why)}.  A prefilter is a complete decider of the subsequence relation when every
+    Some(..) it returns lies behind a loop over needle[1..] that can leave with None (each needle character was looked
+    for); otherwise (first / last character and the window length only) a Some is just a necessary condition."""
+    from props.c11 import for_loops
+    out = {}
+    for b in facts.bodies_of(M):
+        if not (b["path"].startswith("prefilter::<impl Matcher>::prefilter_") and "{closure" not in b["path"]):
+            continue
+        pf = fn_of(b)
+        nl = None
+        for l in range(1, pf.arg_count + 1):
+            if pf.names.get(l) == "needle":
+                nl = l
+        def is_needle(e, depth=0):
+            """is `e` the needle parameter or a part / view of it (not merely an expression that mentions it)?"""
+            e = strip_casts(e)
+            if depth > 12 or not isinstance(e, tuple) or not e:
+                return False
+            if e[0] == "arg":
+                return e[1] == nl
+            if e[0] in ("ref", "deref", "field", "downcast"):
+                return is_needle(e[1], depth + 1)
+            if e[0] == "cast":
+                return is_needle(e[2], depth + 1)
+            if e[0] == "call" and e[2]:
+                return is_needle(e[2][0], depth + 1)
+            return False
+
+        def needle_tail(e):
+            """needle[1..] in any spelling: index by 1.., split_first().1, iter().skip(1)"""
+            for x in walk(e):
+                if x[0] == "call" and str(x[1]).endswith("::index") and is_needle(x[2][0]) and x[2][1][0] == "agg" and str(x[2][1][1]).endswith("RangeFrom::RangeFrom") \
+                        and tuple(strip_casts(x[2][1][2].get("start", ("?",)))[:2]) == ("const", 1):
+                    return True
+                if x[0] == "field" and x[2] == "1" and any(y[0] == "call" and str(y[1]).endswith("::split_first") and is_needle(y[2][0]) for y in walk(x[1])):
+                    return True
+                if x[0] == "call" and str(x[1]).endswith("Iterator::skip") and is_needle(x[2][0]) and tuple(strip_casts(x[2][1])[:2]) == ("const", 1):
+                    return True
+            return False
+
+        def has_none_exit(f_, blocks):
+            return any(f_.blocks[bi]["term"]["k"] == "call" and callee(f_.blocks[bi]["term"]).endswith("Try>::branch") for bi in blocks)
+        walked = []     # blocks that are reached only once every character of needle[1..] has been found
+        for h, body, nxt in for_loops(pf):
+            if nxt is None:
+                continue
+            src = pf.expr_of_operand(pf.blocks[nxt[0]]["term"]["args"][0])
+            if needle_tail(src) and has_none_exit(pf, body):
+                walked.append(nxt[2])
+        # the same walk written with try_fold / try_for_each / all over needle[1..]: its closure can say None, and the
+        # result is `?`-ed
+        from common import iter_pipeline
+        for bi, t in pf.calls(lambda t: any(str(t.get("fn")).endswith(x) for x in ("Iterator::try_fold", "Iterator::try_for_each"))):
+            st = iter_pipeline(pf, t)
+            if not st or st[0][0] != "source" or not needle_tail(st[0][2]):
+                continue
+            if any(not k.startswith("total:") or k == "total:rev" for k, c_, e_ in st[1:]):
+                continue
+            clo = [pf.expr_of_operand(a) for a in t["args"][1:]]
+            clo = [c_ for c_ in clo if c_[0] == "closure"]
+            if not clo:
+                continue
+            cf = get_fn(facts, M, clo[0][1])
+            if not has_none_exit(cf, range(len(cf.blocks))):
+                continue
+            # continue edge of the `?` applied to the fold's result
+            cid = (bi, t["dest"]["l"])
+            for b2, t2 in pf.calls(lambda t_: callee(t_).endswith("Try>::branch")):
+                if any(x[0] == "call" and len(x) > 4 and x[4] == cid for x in walk(pf.expr_of_operand(t2["args"][0]))):
+                    sw = pf.blocks[t2["target"]]["term"]
+                    if sw["k"] == "switch":
+                        cont = [bb for v, bb in sw["arms"] if v == 0]
+                        if cont:
+                            walked.append(cont[0])
+        nones = [bi for bi, t in pf.calls(lambda t: callee(t).endswith("from_residual"))]
+        for bi, si, st_ in pf.stmts(lambda s_: s_["k"] == "assign" and s_["rv"].get("agg") == "adt" and s_["rv"].get("variant") == "None"):
+            nones.append(bi)
+        if walked and pf.all_paths_to_return_pass(0, via_nodes=walked + nones):
+            out[b["path"]] = (True, "every Some lies behind a walk over needle[1..] that can leave with None")
+        else:
+            iterates = any(any(callee(t).endswith(x) for x in ("::iter", "::into_iter", "::chars", "::split_first", "::split_last")) and is_needle(pf.expr_of_operand(t["args"][0]))
+                           for bi, t in pf.calls() if t["args"])
+            partial = False
+            for h, body, nxt in for_loops(pf):
+                if nxt is None:
+                    continue
+                src = pf.expr_of_operand(pf.blocks[nxt[0]]["term"]["args"][0])
+                for x in walk(src):
+                    if x[0] == "call" and str(x[1]).endswith("::index") and is_needle(x[2][0]) and x[2][1][0] == "agg" and isinstance(x[2][1][2], dict) and "end" in x[2][1][2]:
+                        partial = True
+            if partial:
+                out[b["path"]] = (False, "a walk over needle[a..b] leaves out the end of the needle: its last character(s) are not required to occur")
+            elif iterates:
+                out[b["path"]] = (None, "iterates over the needle in a form that is not recognised as a complete walk")
+            else:
+                out[b["path"]] = (False, "no walk over the needle: only single characters (first / last) and the window length are inspected")
+    return out
+
+
+def rule_decider_before_score(ctx):
+    """`calculate_score` never rejects: it scores whatever window it is given.  A dispatcher may therefore return
+    Some(calculate_score(..)) only where a complete decider has already succeeded on this (haystack, needle); behind an
+    incomplete prefilter the window must go to a routine that can still say None (exact_match_impl, fuzzy_match_optimal,
+    the greedy scan)."""
+    facts = ctx.facts
+    comp = prefilter_completeness(facts)
+    ctx.floor("prefilters classified", len(comp), 2)
+    for pth, (c, why) in sorted(comp.items()):
+        ctx.ok(pth, "%s: %s (%s)" % (pth.rsplit("::", 1)[1], "complete decider" if c else ("necessary condition only" if c is False else "unclassified"), why))
+    n = 0
+    for name in ("Matcher::fuzzy_matcher_impl", "Matcher::fuzzy_match_greedy_impl"):
+        fn = get_fn(facts, M, name)
+        k = 0
+        for bi, t in fn.calls(lambda t: callee(t) == "score::<impl Matcher>::calculate_score"):
+            n += 1
+            k += 1
+            doms = [(pb, pt) for pb, pt in fn.calls(lambda t: callee(t) in comp) if fn.dominates(pb, bi) and pb != bi]
+            gs = guards_of(fn, bi)
+
+            def succeeded(pb, pt):
+                """is the call's result known to be Some on the way to `bi` (the `?` continue edge or a Some pattern)?"""
+                cid = (pb, pt["dest"]["l"])
+                for g in gs:
+                    e = g[3]
+                    if e[0] != "discr":
+                        continue
+                    inner = e[1]
+                    via_try = any(x[0] == "call" and str(x[1]).endswith("Try>::branch") for x in walk(inner))
+                    if any(x[0] == "call" and len(x) > 4 and x[4] == cid for x in walk(inner)):
+                        if (via_try and g[2] == [0]) or (not via_try and g[2] == [1]):
+                            return True
+                return False
+            complete = [callee(pt) for pb, pt in doms if comp[callee(pt)][0] and succeeded(pb, pt)]
+            if complete:
+                ctx.ok(site(fn, bi), "calculate_score reached only after %s succeeded (every needle character found in order)" % complete[0].rsplit("::", 1)[1])
+                continue
+            unknown = [callee(pt) for pb, pt in doms if comp[callee(pt)][0] is None and succeeded(pb, pt)]
+            if unknown:
+                raise Inconclusive("%s: %s %s" % (name, unknown[0], comp[unknown[0]][1]))
+            in_loop = any(bi in body for h, body, srcs in fn.loops())
+            others = [callee(ot) for ob, ot in fn.calls() if fn.dominates(ob, bi) and ob != bi and
+                      any(callee(ot).endswith(x) for x in ("::exact_match_impl", "::fuzzy_match_optimal", "::fuzzy_match_greedy_"))]
+            if in_loop or others or any(h for h, body, srcs in fn.loops() if fn.dominates(h, bi)):
+                raise Inconclusive("%s: calculate_score behind a hand-written check (%s)" % (name, others or "loop"))
+            ctx.violation("%s|decider|%d" % (name, k), site(fn, bi),
+                          "Some(calculate_score(..)) is returned where only %s has looked at the haystack (%s): a window whose interior does not contain the needle is "
+                          "reported as a match (haystack \"é axc\", needle \"abc\"), while the greedy entry point says None" % (
+                              ", ".join(sorted(set(callee(pt).rsplit("::", 1)[1] for pb, pt in doms))) or "no prefilter", comp[callee(doms[0][1])][1] if doms else "nothing"))
+    ctx.floor("direct calculate_score calls in the fuzzy dispatchers", n, 2)
+
+
 def rule_entry_order(ctx):
     facts = ctx.facts
     for name in ("Matcher::fuzzy_matcher_impl", "Matcher::fuzzy_match_greedy_impl", "Matcher::substring_match_impl"):
@@ -777,3 +929,4 @@ def rules(ctx):
     ctx.run_rule("C01.repr-only", rule_repr_only)
     ctx.run_rule("C01.window", rule_window)
     ctx.run_rule("C01.entry-order", rule_entry_order)
+    ctx.run_rule("C01.decider-before-score", rule_decider_before_score)
